@@ -815,6 +815,24 @@ fn poolreal(args: &[&str]) -> String {
                         Err(_) => "stuck".to_string(),
                     }
                 }
+                'q' => {
+                    // a request whose TARGET refuses the connection (a closed loopback port): the open fails at the stream
+                    // level (SYNACK with an error), the session itself is healthy
+                    let closed_port = {
+                        let l = std::net::TcpListener::bind("127.0.0.1:0").unwrap();
+                        l.local_addr().unwrap().port()
+                    };
+                    let r = tokio::time::timeout(
+                        ms(8000),
+                        run.client.create_proxy_stream(("127.0.0.1".to_string(), closed_port)),
+                    )
+                    .await;
+                    match r {
+                        Ok(Ok(_)) => "opened".to_string(),
+                        Ok(Err(_)) => "refused".to_string(),
+                        Err(_) => "stuck".to_string(),
+                    }
+                }
                 'b' => {
                     // n requests at once (they overlap: each is inside its TLS dial while the others start)
                     let mut hs = Vec::new();
